@@ -97,7 +97,7 @@ def grid_variants(lst, tier, shape_of, quick_pairs, skip=GRIDV_SKIP):
         if split is not None or shape in skip or 'freq' in kw or 'unit' in kw:
             continue
         for gv in shapes.GRID_VARIANTS:
-            if shape == 'plant' and gv.startswith('month_d'):
+            if (shape.startswith('plant') or shape == 'linked') and gv.startswith('month_d'):
                 continue      # durations (minimum runtime ...) cannot be converted to steps on a calendar-month grid (pandas refuses 'MS')
             if tier == 'thorough' or (cid, gv) in quick_pairs:
                 out.append(('%s@%s' % (cid, gv), dict(kw, gridv=gv), split, level))
